@@ -312,7 +312,9 @@ theorem ExtD.insert (depth : Nat) (e : List Frame) (n : String) (v : Value)
   exact envGet_insert_of_not_contains e n v (by simpa [alreadyDefined] using h)
 
 theorem setNameIfLambda_env (s : ES) (n : String) (v : Value) : (setNameIfLambda s n v).env = s.env := by
-  cases v <;> rfl
+  unfold setNameIfLambda; split
+  · split <;> rfl
+  · rfl
 theorem kx {α} {d : Nat} {e : List Frame} {p : α × ES} {r s1} (h1 : p = (r, s1)) (h2 : ExtD d e p.2.env) :
     ExtD d e s1.env := by
   subst h1; exact h2
